@@ -36,7 +36,7 @@ fn gen(a: &Args) {
             }
         }
     } else {
-        let (per_clean, per_directed, budget) = if a.thorough() { (60, 20, 400) } else { (7, 3, 150) };
+        let (per_clean, per_directed, budget) = if a.thorough() { (40, 12, 300) } else { (7, 3, 150) };
         for kind in KINDS {
             let per_kind = if DIRECTED.contains(&kind) { per_directed } else { per_clean };
             for _ in 0..per_kind {
